@@ -1476,7 +1476,10 @@ impl ConnectionHandler for VarlinkService {
         loop {
             if let Some(iface) = upgraded_iface {
                 let mut call = Call::new_upgraded(writer);
-                let unread = self.call_upgraded(&iface, &mut call, &mut bufreader)?;
+                let mut unread = self.call_upgraded(&iface, &mut call, &mut bufreader)?;
+                // what we read ahead and the handler did not take belongs to
+                // the caller as well, it is fed to the next call
+                unread.extend_from_slice(bufreader.buffer());
                 return Ok((unread, Some(iface)));
             }
 
